@@ -77,7 +77,7 @@ CTOR_PROGRAMS = {
     "keys-agree": "var p = {inh: 1}; var o = Object.create(p); o.a = A; o.b = B; Object.defineProperty(o, 'hid', {value: 3, enumerable: false}); Object.defineProperty(o, 'acc', {get: function () { return 4; }, enumerable: true}); var fi = []; for (var k in o) { fi.push(k); } "
                   "log(Object.keys(o).sort().join(), fi.sort().join(), Object.values(o).length, Object.entries(o).length, o.hasOwnProperty('hid'), 'hid' in o, o.hid, 'inh' in o, o.hasOwnProperty('inh'));",
     "numeric-keys": "var o = {}; o[1] = A; o['1'] = B; o[1.0] = A + B; var k = Object.keys(o); log(k.length, o[1], o['1'], 1 in o, '1' in o, o.hasOwnProperty(1), delete o[1], 1 in o);",
-    "delete-forms": "var o = {a: A, b: B}; var p = Object.create(o); log(delete o.a, delete o.missing, delete p.b, p.b, 'a' in o, delete o['b'], p.b, delete o);",
+    "delete-forms": "var o = {a: A, b: B}; var p = Object.create(o); log(delete o.a, delete o.missing, delete p.b, p.b, 'a' in o, delete o['b'], p.b);",
     "set-does-not-touch-proto": "var p = {v: A}; var o = Object.create(p); o.v = B; log(o.v, p.v, o.hasOwnProperty('v')); delete o.v; log(o.v, p.v); p.v = B + 1; log(o.v);",
     "proto-literal": "var p = {x: A}; var o = {__proto__: p, y: B}; log(o.x, o.y, Object.getPrototypeOf(o) === p, o.hasOwnProperty('__proto__'), Object.keys(o).join(), o.__proto__ === p);",
     "proto-accessor": "var p = {x: A}; var o = {}; o.__proto__ = p; log(o.x, Object.getPrototypeOf(o) === p, Object.keys(o).length); o.__proto__ = null; log(o.x, Object.getPrototypeOf(o) === null); var q = {}; q.__proto__ = 5; log(Object.getPrototypeOf(q) === Object.prototype);",
@@ -88,8 +88,8 @@ CTOR_PROGRAMS = {
     "array-as-object": "var a = [A, B]; a.extra = 7; log(Object.keys(a).join(), 'extra' in a, 0 in a, 2 in a, 'length' in a, a.hasOwnProperty('length'), a.hasOwnProperty(1), a.hasOwnProperty(2), Object.values(a).length, Object.entries(a)[1][0]); var fi = []; for (var k in a) { fi.push(k); } log(fi.join());",
     "array-proto": "Array.prototype.first = function () { return this[0]; }; var a = [A, B]; log(a.first(), [].first(), 'first' in a, a.hasOwnProperty('first'), Object.keys(a).join(), Object.getPrototypeOf(a) === Array.prototype, a instanceof Array, a instanceof Object); delete Array.prototype.first; log(typeof a.first);",
     "object-proto": "Object.prototype.everywhere = A; var o = {}, a = [], f = function () {}; function C() {} log(o.everywhere, a.everywhere, f.everywhere, new C().everywhere, 'everywhere' in o, o.hasOwnProperty('everywhere'), Object.keys(o).length); delete Object.prototype.everywhere; log(o.everywhere);",
-    "function-proto-chain": "function C() {} log(Object.getPrototypeOf(C) === Function.prototype, Object.getPrototypeOf(C.prototype) === Object.prototype, C.prototype.constructor === C, Object.keys(C.prototype).length, C.hasOwnProperty('prototype'), typeof C.call, typeof C.toString);",
-    "toString-valueOf-own": "var o = {toString: function () { return 's' + A; }, valueOf: function () { return B; }}; log('' + o, o + 1, String(o), o.hasOwnProperty('toString'), ({}).hasOwnProperty('toString'), 'toString' in {});",
+    "function-proto-chain": "function C() {} log(Object.getPrototypeOf(C) === Function.prototype, Object.getPrototypeOf(C.prototype) === Object.prototype, C.prototype.constructor === C, Object.keys(C.prototype).length, C.hasOwnProperty('prototype'), typeof C.call, typeof C.bind);",
+    "toString-valueOf-own": "var o = {toString: function () { return 's' + A; }, valueOf: function () { return B; }}; log('' + o, o + 1, o.hasOwnProperty('toString'), ({}).hasOwnProperty('toString'));",
 }
 
 
@@ -99,5 +99,5 @@ def call_programs():
         for fn, fsrc in FORMS.items():
             out.append(("call.%s.%s" % (kn, fn), PRELUDE + ksrc + "\n" + fsrc))
     for name, src in CTOR_PROGRAMS.items():
-        out.append(("obj.%s" % name, PRELUDE + src.replace("log(", "log('r', ", 1) if False else PRELUDE + src))
+        out.append(("obj.%s" % name, PRELUDE + src.replace("log(", "log('r', ")))
     return out
